@@ -637,14 +637,9 @@ func checkC11(c *Ctx, r *Report) {
 	if ic := c.Fn(pkgDomain, "(*RequestProfile).IsCompatibleWith"); ic == nil {
 		r.Unresolved("C11-R3", "(*RequestProfile).IsCompatibleWith")
 	} else {
-		for _, ret := range returnsOf(ic) {
-			k, ok := ret.Results[0].(*ssa.Const)
-			if !ok || k.Value == nil || k.Value.String() != "true" {
-				continue
-			}
-			key := fmt.Sprintf("%s:return-true#%s", fname(ic), retKey(c, ic, ret))
+		whyOf := func(facts []condFact) string {
 			why := ""
-			for _, cf := range condFacts(ret.Block()) {
+			for _, cf := range facts {
 				if !cf.True {
 					continue
 				}
@@ -663,10 +658,50 @@ func checkC11(c *Ctx, r *Report) {
 					}
 				}
 			}
+			return why
+		}
+		// every way into block b carries an accepted reason (a `||` reaches the block over several edges)
+		var whyAllPaths func(b *ssa.BasicBlock, depth int) string
+		whyAllPaths = func(b *ssa.BasicBlock, depth int) string {
+			if w := whyOf(condFacts(b)); w != "" {
+				return w
+			}
+			if depth == 0 || len(b.Preds) < 2 {
+				return ""
+			}
+			out := ""
+			for _, p := range b.Preds {
+				w := whyOf(edgeFacts(p, b))
+				if w == "" {
+					w = whyAllPaths(p, depth-1)
+				}
+				if w == "" {
+					return ""
+				}
+				if out == "" {
+					out = w
+				} else if out != w {
+					out = out + " / " + w
+				}
+			}
+			return out
+		}
+		n := 0
+		for _, vr := range virtualReturns(ic, 0) {
+			k, ok := vr.Val.(*ssa.Const)
+			if !ok || k.Value == nil || k.Value.String() != "true" {
+				continue
+			}
+			key := fmt.Sprintf("%s:return-true#%d", fname(ic), n)
+			n++
+			why := whyOf(vr.Facts)
+			if why == "" {
+				why = whyAllPaths(vr.At.Block(), 3)
+			}
 			if why != "" {
-				r.OK("C11-R3", key, retPos(ic, ret), "true because "+why)
+				r.OK("C11-R3", key, retPos(ic, vr.Ret), "true because "+why)
 			} else {
-				r.Bad("C11-R3", key, retPos(ic, ret), "IsCompatibleWith answers true on a path that is neither auto, empty spec, nor a type match")
+				r.Bad("C11-R3", key, retPos(ic, vr.Ret), "IsCompatibleWith answers true on a path that is neither auto, empty spec, nor a type match")
 			}
 		}
 	}
@@ -732,11 +767,10 @@ func checkC14(c *Ctx, r *Report) {
 		if !ok {
 			return
 		}
-		if bi, ok := call.Call.Value.(*ssa.Builtin); ok && bi.Name() == "append" && isEndpointSlice(call.Type()) {
-			key := fname(tp) + ":append-native-only"
+		nativeFacts := func(facts []condFact) bool {
 			nonNil, enabled := false, false
-			for _, cf := range normFacts(condFacts(in.Block())) {
-				if bo, ok := cf.Cond.(*ssa.BinOp); ok && bo.Op == token.NEQ && cf.True && isNilConst(bo.Y) {
+			for _, cf := range facts {
+				if bo, ok := cf.Cond.(*ssa.BinOp); ok && isNilConst(bo.Y) && ((bo.Op == token.NEQ && cf.True) || (bo.Op == token.EQL && !cf.True)) {
 					if cl, ok := bo.X.(*ssa.Call); ok && describeCall(&cl.Call).Name == "GetAnthropicSupport" {
 						nonNil = true
 					}
@@ -749,7 +783,30 @@ func checkC14(c *Ctx, r *Report) {
 					}
 				}
 			}
-			if nonNil && enabled {
+			return nonNil && enabled
+		}
+		isAppend, isDeleteFunc := false, false
+		if bi, ok := call.Call.Value.(*ssa.Builtin); ok && bi.Name() == "append" && isEndpointSlice(call.Type()) {
+			isAppend = true
+		} else if ci := describeCall(&call.Call); ci.Pkg == "slices" && ci.Name == "DeleteFunc" && isEndpointSlice(call.Type()) {
+			isDeleteFunc = true
+		}
+		if isAppend || isDeleteFunc {
+			key := fname(tp) + ":append-native-only"
+			okNative := false
+			if isAppend {
+				okNative = nativeFacts(normFacts(condFacts(in.Block())))
+			} else {
+				// the filter spelled as slices.DeleteFunc: every path of the predicate that keeps an element has the facts
+				sets, _ := keptFactSets(call.Call.Args[1])
+				okNative = len(sets) > 0
+				for _, fs := range sets {
+					if !nativeFacts(fs) {
+						okNative = false
+					}
+				}
+			}
+			if okNative {
 				r.OK("C14-R1", key, in.Pos(), "endpoint joins the passthrough list only if its profile declares enabled native Anthropic support")
 			} else {
 				r.Bad("C14-R1", key, in.Pos(), "an endpoint can join the passthrough list without declared, enabled native Anthropic support: it would receive an untranslated Anthropic body")
